@@ -11,7 +11,7 @@
 EXTENDS Naturals, Sequences, FiniteSets, TLC, Json, IOUtils
 
 MCG == ndJsonDeserialize(IOEnv.GFILE)[1]
-MCAsBuilt == {"ChoiceBreakLeavesFlag", "RestoreKeepsErrorState"}
+MCAsBuilt == {"RestoreKeepsErrorState"}
 Recs == ndJsonDeserialize(IOEnv.RFILE)
 
 INSTANCE ParserMachine WITH G <- MCG, AsBuilt <- MCAsBuilt
